@@ -96,8 +96,9 @@ SPECS = {
         ],
     },
     "C09": {
-        "corr": ["Codec"],
+        "corr": ["Codec", "PbWire"],
         "engines": [
+            {"name": "pbwire", "n": {"quick": 900, "thorough": 12000}, "seed_off": 13},
             {"name": "codec", "n": {"quick": 500, "thorough": 6000}},
         ],
         "explanation": "Theorems: the version-vector byte codec round-trips, rejects every truncation of an encoding and does work bounded by the input whatever entry count the bytes claim; int64 and the snapshot format header round-trip; whatever the decoders accept as an operation of a change carries every ticket the executor dereferences. Engine: two author documents (all flavors incl. trees, styles, moves, array set, undo/redo) exchange changes; every pack also reaches passive replicas as change objects, through ToChangePack/proto/FromChangePack, through the ChangeInfo storage encoding, and one replica is repeatedly replaced by BytesToSnapshot(Decompress(Compress(SnapshotToBytes(it)))): all must marshal identically, hold the same garbage, and encode to the same canonical snapshot (tickets, tombstones). Hostile stream: structure-aware mutations of valid packs and snapshots, truncations, bit flips and random bytes; every pack the decoder accepts is executed on a replica positioned just before it (as the server's document rebuild does), snapshots are decoded, marshalled, deep-copied and re-encoded; byte-level decoders with attacker-chosen counts run in a memory-limited child process. Version-vector byte strings and operation ticket shapes are judged by the Coq model.",
